@@ -1724,6 +1724,8 @@ class Module(ABC):
     def delete_recordings(self):
         """Removes all recordings from the module."""
         if isinstance(self, View):
+            # The view's tables are a snapshot: also see recordings made after it.
+            self._update_view()
             base_recs = self.base.recordings
             self.base.recordings = base_recs[
                 ~base_recs.isin(self.recordings).all(axis=1)
@@ -1905,6 +1907,8 @@ class Module(ABC):
 
     def delete_clamps(self, state_name: Optional[str] = None):
         """Removes all clamps of the given state from the module."""
+        # The view's tables are a snapshot: also see stimuli and clamps made after it.
+        self._update_view()
         all_externals = list(self.externals.keys())
         if "i" in all_externals:
             all_externals.remove("i")
